@@ -35,7 +35,20 @@ BODIES = [
     ('loopbrk', ['T: type', 'N: usize'], ['x: T', 'lim: T'], 'T',
      'acc : T = x; i : usize = 0; while i < N { if acc > lim { mark(4); break; } acc = acc + acc; defer mark(5); i = i + 1; } acc'),
     ('nest', ['T: type', 'N: usize'], ['a: T', 'b: T'], 'T', 'absdiff(T, acc(T, N, a, b), b)'),
+    ('count', ['N: usize'], ['x: usize'], 'usize', 'arr : [N]u8; arr.len + x'),
+    ('twice', ['N: usize'], ['x: usize'], 'usize', 'count(N, x) * 2'),
+    ('fwd', ['T: type', 'K: i32'], ['x: T'], 'T', 'scale(K, T, x) + T.(K)'),
 ]
+NESTED = {
+    'nest': lambda b: [('absdiff', {'T': b['T']}), ('acc', {'T': b['T'], 'N': b['N']})],
+    'twice': lambda b: [('count', {'N': b['N']})],
+    'fwd': lambda b: [('scale', {'K': b['K'], 'T': b['T']})],
+}
+NESTED_BODY = {
+    'nest': lambda b: 'absdiff__%s(acc__%s_%s(a, b), b)' % (b['T'], b['N'], b['T']),
+    'twice': lambda b: 'count__%s(x) * 2' % b['N'],
+    'fwd': lambda b: 'scale__%s_%s(x) + %s.(%s)' % (b['K'], b['T'], b['T'], b['K']),
+}
 
 
 def subst(text, binding):
@@ -83,10 +96,10 @@ def sources(instances):
         cargs = [binding[c.split(':')[0].strip()] for c in cparams]
         if cname not in seen:
             b2 = body
-            if name == 'nest':
+            if name in NESTED:
                 # the nested generic calls are substituted too
-                b2 = 'absdiff__%s(acc__%s_%s(a, b), b)' % (binding['T'], binding['N'], binding['T'])
-                for dep, db in (('absdiff', {'T': binding['T']}), ('acc', {'T': binding['T'], 'N': binding['N']})):
+                b2 = NESTED_BODY[name](binding)
+                for dep, db in NESTED[name](binding):
                     dn = copy_name(dep, db)
                     if dn not in seen:
                         dspec = [b for b in BODIES if b[0] == dep][0]
@@ -119,17 +132,51 @@ def run(chk, tier, seed):
     rnd = random.Random(seed)
     fixed = [('acc', {'T': 'i32', 'N': '3'}), ('acc', {'T': 'i32', 'N': '3'}), ('acc', {'T': 'u64', 'N': '2'}), ('absdiff', {'T': 'i8'}),
              ('mix', {'T': 'i8', 'U': 'u32'}), ('mix', {'T': 'u16', 'U': 'i64'}), ('pick', {'T': 'u8', 'N': '3'}), ('scale', {'K': '7', 'T': 'i16'}),
-             ('loopbrk', {'T': 'u8', 'N': '3'}), ('nest', {'T': 'i32', 'N': '2'}), ('acc', {'T': 'i32', 'N': '2'})]
+             ('loopbrk', {'T': 'u8', 'N': '3'}), ('nest', {'T': 'i32', 'N': '2'}), ('acc', {'T': 'i32', 'N': '2'}),
+             # the same outer generic instantiated again: nested generic calls must follow the outer call's own arguments
+             ('nest', {'T': 'i32', 'N': '3'}), ('nest', {'T': 'u8', 'N': '2'}), ('nest', {'T': 'i32', 'N': '2'}),
+             ('twice', {'N': '2'}), ('twice', {'N': '5'}), ('twice', {'N': '2'}), ('fwd', {'T': 'u16', 'K': '3'}), ('fwd', {'T': 'i64', 'K': '4'})]
     instances = fixed + gen_instances(rnd, 14 if tier == 'quick' else 150)
     lines, obs = sources(instances)
     src = clifcheck.PRELUDE + '\n'.join(lines) + '\n'
     refs = 'refs :: () {\n' + '\n'.join('    r%d := %s; q%d := %s;' % (i, o['wrapper'], i, o['copy']) for i, o in enumerate(obs)) + '\n}\n'
     mod, out = clifcheck.compile_module('C16', 'generics', src + refs + 'main :: () { refs(); }\n')
+    bad = 0
     if mod is None:
-        raise Inconclusive('the C16 template was rejected by the compiler:\n' + out[-1500:])
+        # the copies alone must compile (otherwise the template is wrong, not the compiler); then the generic calls
+        # are added one at a time: a call whose addition makes the compiler reject or crash, while its hand-substituted
+        # copy is accepted, is a difference between the call and the copy (calls may only interfere through shared state)
+        wrappers = {o['wrapper'] for o in obs}
+        base = [l for l in lines if l.split(' ::')[0] not in wrappers]
+
+        def attempt(ws, nm):
+            body = clifcheck.PRELUDE + '\n'.join(base + [l for l in lines if l.split(' ::')[0] in ws]) + '\n'
+            rf = 'refs :: () {\n' + '\n'.join('    r%d := %s; q%d := %s;' % (i, o['wrapper'], i, o['copy']) if o['wrapper'] in ws else '    q%d := %s;' % (i, o['copy'])
+                                             for i, o in enumerate(obs)) + '\n}\n'
+            m, oo = clifcheck.compile_module('C16', nm, body + rf + 'main :: () { refs(); }\n')
+            return m, oo, body, rf
+        m0, out0, _, _ = attempt(set(), 'generics_copies_only')
+        if m0 is None:
+            raise Inconclusive('the hand-substituted copies of the C16 template were rejected by the compiler:\n' + out0[-1500:])
+        keep = set()
+        for o in obs:
+            m1, out1, body1, rf1 = attempt(keep | {o['wrapper']}, 'generics_bisect')
+            if m1 is not None:
+                keep.add(o['wrapper']); continue
+            first = [l for l in out1.splitlines() if 'panicked' in l or l.startswith('error') or 'Error defining' in l or 'Compilation(' in l][:1]
+            key = {'kind': 'generic-call-not-compiled', 'generic': o['generic']}
+            what = ('the generic call `%s` is not compiled although its hand-substituted copy `%s` is (other instantiations present: %s): %s'
+                    % ([l for l in lines if l.startswith(o['wrapper'] + ' ::')][0][:160], o['copy'],
+                       sorted({x['copy'] for x in obs if x['wrapper'] in keep and x['generic'] in (o['generic'], 'acc', 'absdiff')})[:6], first[0][:200] if first else 'compiler failed'))
+            path = replaylib.make_compile_replay('C16', 'compile_' + o['wrapper'], body1 + rf1 + 'main :: () { refs(); }\n', out1, what, key)
+            chk.report(key, what, path); bad += 1
+        obs = [o for o in obs if o['wrapper'] in keep]
+        mod, out, src, refs = attempt(keep, 'generics')
+        if mod is None:
+            raise Inconclusive('the C16 template is still rejected after removing the failing calls:\n' + out[-1500:])
     chk.opcodes.update(mod.opcodes)
     prover = Prover(chk)
-    bad = 0; pairs = 0
+    pairs = 0
     callee_of = {}
     for o in obs:
         args = [z3.BitVec('a%d' % i, bits_of(t)) for i, t in enumerate(o['types'])]
